@@ -1,6 +1,7 @@
 import CentrifugeVerif.DriverLib
 import CentrifugeVerif.Model.Live
 import CentrifugeVerif.Model.SubReply
+import CentrifugeVerif.Model.Sync
 /-!
 Driver for C01: one scenario per line (same syntax as the Go harness, see
 props/C01/harness/root/zz_verif_c01_test.go).  Prints the model's prediction in the harness's
@@ -8,6 +9,7 @@ canonical output format (for `mode=each`; `mode=burst` scenarios are judged by t
 print `burst`).
 -/
 open CentrifugeVerif DriverLib Merge SubReply Live
+open CentrifugeVerif.Sync (St Label next)
 
 def parseList (s : String) (n : Nat) : Option (List (List Nat)) :=
   if s == "-" || s == "" then some [] else
@@ -38,9 +40,72 @@ def liveEach (serverSide : Bool) (s : Sub) : List Inc → List String × String
       let (rest, e) := liveEach serverSide s1 is
       (showAct a :: rest, e)
 
+/-! `sync` lines: the PubSubSync part of the transition system against `internal/recovery` -/
+def syncReq : Req := { recover := false, reject := false, offset := 0, epoch := 0 }
+def syncHist : Hist := { pubs := [], top := 0, epoch := 0 }
+
+def runL (s : St) (ls : List Label) : Option St :=
+  ls.foldlM (fun s l => next syncReq syncHist s l) s
+
+/-- one delivery: hub lookup + SyncPublication; returns the new state and `b`/`l`/`p` -/
+def syncPub (s : St) (o : Nat) : St × String :=
+  let d : Inc := { offset := o, epoch := 0 }
+  match next syncReq syncHist s (.bStart d) with
+  | none => (s, "model-stuck")
+  | some s1 =>
+    let s2 := match next syncReq syncHist s1 .bCheck with
+      | some x => x
+      | none => s1
+    match s2.bpc with
+    | .live _ => ((next syncReq syncHist s2 .bLive).getD s2, "l")
+    | .wantMu _ =>
+      match next syncReq syncHist s2 .bLock with
+      | none => (s2, "p")                                   -- parked on pubBufferMu
+      | some s3 =>
+        match s3.bpc with
+        | .live _ => ((next syncReq syncHist s3 .bLive).getD s3, "l")
+        | _ => (s3, "b")
+    | _ => (s2, "model-stuck")
+
+def syncTok (acc : St × List String) (tok : String) : St × List String :=
+  let (s, out) := acc
+  if tok == "start" then
+    -- a fresh subscribe attempt (the recovery-level harness has no hub: always routed)
+    let s0 : St := { inHub := true, bpc := s.bpc }
+    match runL s0 [.sStart] with
+    | some s1 => ({ s1 with inHub := true }, out ++ ["start"])
+    | none => (s, out ++ ["model-stuck"])
+  else if tok == "lock" then
+    match s.spc with
+    | .s1 =>
+      match runL s [.sHubAdd, .sHist, .sLock] with
+      | some s1 => (s1, out ++ [s!"lock[{joinWith "," (s1.taken.map (fun p => toString p.offset))}]"])
+      | none => (s, out ++ ["model-stuck"])
+    | _ => (s, out ++ ["lock[]"])            -- no entry: LockBufferAndReadBuffered returns nil
+  else if tok == "stop" then
+    -- StopBuffering: clears the entry, releases pubBufferMu
+    let s1 : St := { s with spc := .s7, inSub := false, muHeld := false, entry := false }
+    match s1.bpc with
+    | .wantMu _ =>
+      match next syncReq syncHist s1 .bLock with
+      | some s2 =>
+        match s2.bpc with
+        | .live _ => ({ ((next syncReq syncHist s2 .bLive).getD s2) with spc := .s0 }, out ++ ["stop[l]"])
+        | _ => ({ s2 with spc := .s0 }, out ++ ["stop[b]"])
+      | none => (s1, out ++ ["model-stuck"])
+    | _ => ({ s1 with spc := .s0 }, out ++ ["stop[]"])
+  else if tok.startsWith "pub:" then
+    match (tok.drop 4).toNat? with
+    | some o => let (s1, r) := syncPub s o; (s1, out ++ [r])
+    | none => (s, out ++ ["bad-op"])
+  else (s, out ++ ["bad-op"])
+
 def step (line : String) : String :=
   let ws := words line
   match ws with
+  | "sync" :: toks =>
+    let (_, out) := toks.foldl syncTok (({ inHub := true } : St), [])
+    joinWith " " out
   | "sc" :: _ =>
     let g := fun k => (kv ws k).getD ""
     match parseList (g "hist") 2, parseList (g "buf") 3, parseList (g "live") 4,
